@@ -23,9 +23,9 @@
 (* (not compared).  Verdicts are total: one record per trace listing every  *)
 (* failing step with the first failing clause                               *)
 (*   raised | pc | rd | frame (another register changed) | mem              *)
-(* and, when a set of at most two named deviations of RVIsa!Exec reproduces *)
-(* amoco's complete post-state, that set (the Python side matches it with   *)
-(* known_findings.json; an unexplained failure has devs = {}).              *)
+(* and every smallest set of at most two named deviations of RVIsa!Exec     *)
+(* that reproduces amoco's complete post-state (the Python side matches     *)
+(* them with known_findings.json; an unexplained failure has devs = {}).    *)
 (* Words that are not RV32I/RV64I base instructions (or ECALL/EBREAK) are   *)
 (* reported as skipped; base instructions amoco did not decode as `undec'.  *)
 (***************************************************************************)
@@ -57,7 +57,8 @@ DevsFor(op) ==
      [] op = "SLTI" -> {"SltiMixedSignedness", "SignedCmpAsUnsigned"}
      [] op \in {"SLL", "SRL", "SRA"} -> {"ShiftAmount5Bits"}
      [] op \in {"SLLIW", "SRLIW", "SRAIW"} -> {"ShiftImmWAs64"}
-     [] op = "AUIPC" -> {"AuipcNoPc", "AuipcFromNextPc"}
+     [] op = "AUIPC" -> {"AuipcNoPc", "AuipcFromNextPc", "UImmZeroExtended"}
+     [] op = "LUI" -> {"UImmZeroExtended"}
      [] op = "SRAI" -> {"SraLogical"}
      [] op \in {"LB", "LH", "LW"} -> {"LoadNoSignExt"}
      [] op \in {"SB", "SH", "SW", "SD"} -> {"StoreWide"}
@@ -94,8 +95,7 @@ Judge(s) ==
            c == Clause(s, d, e)
        IN IF c = "" THEN [k |-> "ok", op |-> d.op, ld |-> IF LoadSize(d.op) > 0 /\ ~e.unk THEN 1 ELSE 0]
           ELSE LET cands == {S \in Subsets2(DevsFor(d.op)) : S # {} /\ Clause(s, d, Eval(s, d, S)) = ""}
-                   best == IF cands = {} THEN {}
-                           ELSE CHOOSE S \in cands : \A S2 \in cands : Cardinality(S) <= Cardinality(S2)
+                   best == {S \in cands : \A S2 \in cands : Cardinality(S) <= Cardinality(S2)}
                IN [k |-> "fail", op |-> d.op, clause |-> c, devs |-> best]
 
 Init == /\ tid \in 1..Len(Traces)
